@@ -44,9 +44,9 @@ def main():
     c = Check("C18", a.tier, a.seed)
     if a.replay:
         r = json.load(open(a.replay)); c.seed, c.tier = r["seed"], r["tier"]
-    ok_mk, log = c.make(["Props/C18.vo"])
-    thms = theorems_of("Props/C18.v")
-    assumptions = c.audit("Props.C18", thms) if ok_mk and thms else {}
+    ok_mk, log = c.make([] + props("C18")[2])
+    thms = theorems_of(*props("C18")[0])
+    assumptions = c.audit(props("C18")[1], thms) if ok_mk and thms else {}
     casefile = os.path.join(c.work, "cases.txt")
     n, dist, fails, samples = 0, {}, [], []
     dn = 0
